@@ -44,18 +44,15 @@ Qed.
 
 (* the callee starts with the arguments readable at the arguments path, and when the call finishes
    — normally or with an error — the last thing done to the data is their removal at that path *)
-Definition args_doc (args : list (string * string)) : node :=
-  Con (fold_left (fun acc e => add (fst e) (Leaf (SStr (snd e))) acc) args []).
-
 Theorem call_spec name ap args st spec :
   reg_get name (st_reg st) = Some spec ->
-  let st1 := with_data (add_value_at ap (args_doc args) (st_data st)) st in
+  let st1 := with_data (add_value_at ap (args_doc args (st_data st)) (st_data st)) st in
   run_op rec rec_do bound run_ops_of (OpCall name ap args) st =
     (with_data (remove_at ap (st_data (fst (rec spec st1)))) (fst (rec spec st1)), snd (rec spec st1)).
-Proof. intros H. simpl. rewrite H. unfold args_doc. destruct (rec spec _); reflexivity. Qed.
+Proof. intros H. simpl. rewrite H. destruct (rec spec _); reflexivity. Qed.
 
 Theorem call_args_visible ap args data :
-  ap <> ""%string -> lookup ap (Con (add_value_at ap (args_doc args) data)) = Some (args_doc args).
+  ap <> ""%string -> lookup ap (Con (add_value_at ap (args_doc args data) data)) = Some (args_doc args data).
 Proof. intros NE. now apply lookup_add_value_at. Qed.
 
 Theorem call_args_gone ap d :
